@@ -387,6 +387,20 @@ Proof.
 Qed.
 Print Assumptions c18_tls_per_fiber.
 
+(* distinct thread-local pointer variables occupy distinct slots of the per-fiber map, whatever their pointee
+   types, when the proxies are numbered by one counter *)
+Theorem c18_tls_variables_distinct : forall tys, NoDup (Tl.slots true tys).
+Proof. exact TlP.slots_distinct. Qed.
+Print Assumptions c18_tls_variables_distinct.
+
+(* the pinned text numbers the proxies per pointee type: an int* and a long* variable share slot 0.
+   tls/08pr|19pr *)
+Theorem c18_tls_variables_distinct_refuted : exists tys, ~ NoDup (Tl.slots false tys).
+Proof.
+  exists [0; 1]. vm_compute. intro H. inversion H as [|x l N _]. apply N. left. reflexivity.
+Qed.
+Print Assumptions c18_tls_variables_distinct_refuted.
+
 (* ================================================================== non-vacuity: traces of the real library *)
 
 (* timed_mutex/LL|G, choices 1,1,0,1,0,1,0,1 on the repaired tree: f2's try_lock_for is notified by f1's first
